@@ -127,8 +127,12 @@ func scenBlock(rng *rand.Rand, tr *sim.Trace, seg int, events int) {
 		case 4, 5: // own query; maybe answered
 			c := h.call(src, "ping", dht.QueryInput{})
 			time.Sleep(300 * time.Microsecond)
-			if !h.dropped(src) && !h.conn.WaitOut(1, 30*time.Second) {
-				fail("own query to %v never written", src)
+			var myT []byte
+			if !h.dropped(src) {
+				// other queries may be on the wire (table maintenance): find the one to this destination
+				if myT = h.waitQueryTo(src, 30*time.Second); myT == nil {
+					fail("own query to %v never written", src)
+				}
 			}
 			outs := h.flush(false)
 			if h.dropped(src) {
@@ -138,17 +142,14 @@ func scenBlock(rng *rand.Rand, tr *sim.Trace, seg int, events int) {
 				continue
 			}
 			if len(outs) > 0 && rng.Intn(3) != 0 {
-				t, _ := outs[len(outs)-1].Str("t")
-				h.in(src, &query{y: "r", t: t, hasA: true, id: randID(rng), port: -1})
+				h.in(src, &query{y: "r", t: myT, hasA: true, id: randID(rng), port: -1})
 				sim.WaitQuiet(60 * time.Second)
 				if !h.ret(c, 30*time.Second) {
 					fail("own query did not return after its reply")
 				}
 				h.flush(true)
 			} else {
-				if len(outs) > 0 {
-					c.t, _ = outs[len(outs)-1].Str("t")
-				}
+				c.t = myT
 				open = append(open, c)
 			}
 		case 6: // a reply for a query that was sent before its destination got blocked
@@ -661,3 +662,29 @@ func (h *H) tokenQuiet(src *net.UDPAddr) []byte {
 
 // keepQuiet discards datagrams captured before a traversal starts, so that only its own queries are counted.
 func (h *H) keepQuiet() { h.flush(false) }
+
+// waitQueryTo waits for a ping query written to dst and returns its transaction ID (the datagram stays
+// captured for the next flush).
+func (h *H) waitQueryTo(dst *net.UDPAddr, d time.Duration) []byte {
+	deadline := time.Now().Add(d)
+	for time.Now().Before(deadline) {
+		var found []byte
+		for _, of := range h.conn.Peek() {
+			if of.Failed || of.To == nil || of.To.String() != dst.String() {
+				continue
+			}
+			if dd, err := sim.DecodeDict(of.B); err == nil {
+				if y, _ := dd.Str("y"); string(y) == "q" {
+					if q, _ := dd.Str("q"); string(q) == "ping" {
+						found, _ = dd.Str("t")
+					}
+				}
+			}
+		}
+		if found != nil {
+			return found
+		}
+		time.Sleep(50 * time.Microsecond)
+	}
+	return nil
+}
